@@ -68,7 +68,7 @@ type Knobs struct {
 
 func wireKnobs(r rng) Knobs {
 	k := Knobs{MinTypes: 2, MaxTypes: 5, MaxInstPerType: 3, MaxPoints: 3, PSatisfiable: 0.92,
-		PLazy: 0.2, PInit: 0.5, PEmbed: 0.2, PByName: 0.25, PFunc: 0.12, POptional: 0.25, PQual: 0.3, PPrimary: 0.2, PDup: 0.01, PSlice: 0.35, PInitLookup: 0.12, PProcComp: 0.15, PZero: 0.12, PAlt: 0.12}
+		PLazy: 0.2, PInit: 0.5, PEmbed: 0.2, PByName: 0.25, PFunc: 0.12, POptional: 0.25, PQual: 0.3, PPrimary: 0.2, PDup: 0.03, PSlice: 0.35, PInitLookup: 0.12, PProcComp: 0.15, PZero: 0.12, PAlt: 0.12}
 	// swarm: per program, switch some features off or up
 	if r.p(0.3) {
 		k.PLazy = 0
@@ -410,6 +410,14 @@ func genGraph(r rng, seed uint64, id, family string, k Knobs) *sdl.Program {
 	if r.p(k.PDup) && len(p.Instances) >= 2 {
 		// duplicate name: two instances with one alias
 		a, b := p.Instances[r.IntN(len(p.Instances))], p.Instances[r.IntN(len(p.Instances))]
+		if r.p(0.5) {
+			// ... of one type, where the program has two of a type
+			for _, x := range p.Instances {
+				if x != a && x.Type == a.Type {
+					b = x
+				}
+			}
+		}
 		if a != b {
 			if a.Alias == "" {
 				a.Alias = "dupname"
